@@ -39,7 +39,9 @@ COMBINE = {
 
 def weightings():
     return [("BM25F", lambda: scoring.BM25F()), ("BM25F(t_B=0.2)", lambda: scoring.BM25F(B=0.9, K1=1.5, t_B=0.2)),
-            ("TF_IDF", lambda: scoring.TF_IDF()), ("Frequency", lambda: scoring.Frequency())]
+            ("TF_IDF", lambda: scoring.TF_IDF()), ("Frequency", lambda: scoring.Frequency()),
+            # PL2/DFree: their values are not modelled (transcendental), but composition and layout independence are asserted
+            ("PL2", lambda: scoring.PL2()), ("DFree", lambda: scoring.DFree())]
 
 
 def searchers():
@@ -121,7 +123,7 @@ def _mk(op):
     @h(bounds="%s(a[^boost], b) over all ordered pairs of %d leaves, boost in {1, 2, 0.5}; 5 layouts x (BM25F, BM25F with per-field B, TF_IDF, Frequency); "
               "every corpus document; relative tolerance 1e-9" % (C.OPS[op][0], NSEL),
        funcs=FUNCS, examples=[dict(a=0, b=1, bc=0), dict(a=7, b=3, bc=1)], timeout=dict(quick=900, thorough=3000),
-       outside="PL2/DFree numeric values, floating-point summation order beyond the tolerance, CoordMatcher scaling")
+       outside="the numeric values of PL2/DFree scores (only their composition and layout independence are asserted), floating-point summation order beyond the tolerance, CoordMatcher scaling")
     def harness(a: int, b: int, bc: int) -> Optional[str]:
         """
         pre: 0 <= a < NSEL and 0 <= b < NSEL and 0 <= bc < 3
